@@ -28,8 +28,8 @@ RECURSIVE HasRecord(_)
 HasRecord(v) == \/ (v.k = "dict" /\ Len(v.a) > 0 /\ \A j \in 1..Len(v.a) : v.a[j].a[1].k = "str")
                 \/ \E j \in 1..Len(v.a) : HasRecord(v.a[j])
 
-\* C05, end to end: without a rewriter (and with no TypedDicts, k = 0) the annotation of a traced position is the inferred
-\* type itself - every alternative in it must be witnessed by a value really seen THERE.  Parameters with a None default are
+\* C05, end to end: without a rewriter the annotation of a traced position is the inferred
+\* type itself (generated TypedDict classes read as their fields) - every alternative in it must be witnessed by a value really seen THERE.  Parameters with a None default are
 \* exempt (the renderer shows them as Optional whatever was passed).
 TightViol(p, r) ==
   LET ann == J2T(p.ann) IN
